@@ -1,9 +1,14 @@
 #!/bin/sh
 # builds the extracted model + driver into ./modelrun   (run from any cwd)
+#   Extract.v is generated from coq/extraction/parts/*.txt (lines: "Require <Module>" or identifiers)
 set -e
 cd "$(dirname "$0")"
+python3 ../tools/gen_extract.py
 coqc -Q ../coq/theories PV ../coq/extraction/Extract.v >/dev/null
-ocamlfind ocamlopt -O2 -w -a -c model.mli 2>/dev/null || ocamlfind ocamlopt -w -a -c model.mli
-ocamlfind ocamlopt -w -a -c model.ml
-ocamlfind ocamlopt -w -a -c driver.ml
-ocamlfind ocamlopt -w -a -o modelrun model.cmx driver.cmx
+ocamlfind ocamlopt -w -a -c model.mli
+ocamlfind ocamlopt -O2 -w -a -c model.ml 2>/dev/null || ocamlfind ocamlopt -w -a -c model.ml
+ocamlfind ocamlopt -w -a -c drv.ml
+OPS=""
+for f in ops_*.ml; do ocamlfind ocamlopt -w -a -c "$f"; OPS="$OPS ${f%.ml}.cmx"; done
+ocamlfind ocamlopt -w -a -c main.ml
+ocamlfind ocamlopt -w -a -o modelrun model.cmx drv.cmx $OPS main.cmx
